@@ -615,7 +615,22 @@ func c02ExecSeen(vctx *vk.Ctx, c c02Case, seen map[string]bool) error {
 		return fmt.Errorf("queries after the failed T differ from the twin:\n A=%s\n B=%s", a.queriesT, b.queriesT)
 	}
 	// --- follow-up block, no restart
-	follow := append([]axTx{{Signer: c.T.Signer, Fee: axFee, Gas: c.T.Gas, Msgs: []ec.HMsg{{Kind: "run", Body: c02Reader}}}}, c.F...)
+	// follow-up: the reader script; then a call into (and an import of) every
+	// package T tried to deploy - in-memory traces of a failed deployment would
+	// answer differently than a chain that never saw it; then the generated txs.
+	follow := []axTx{{Signer: c.T.Signer, Fee: axFee, Gas: c.T.Gas, Msgs: []ec.HMsg{{Kind: "run", Body: c02Reader}}}}
+	probed := map[string]bool{}
+	for _, m := range c.T.Msgs {
+		if m.Kind == "addpkg" && !probed[m.Path] {
+			probed[m.Path] = true
+			name := m.Path[strings.LastIndex(m.Path, "/")+1:]
+			follow = append(follow,
+				axTx{Signer: c.T.Signer, Fee: axFee, Gas: c.T.Gas, Msgs: []ec.HMsg{c02Call(m.Path, "Add", "1")}},
+				axTx{Signer: c.T.Signer, Fee: axFee, Gas: c.T.Gas, Msgs: []ec.HMsg{{Kind: "run", Body: "package main\n\nimport \"" + m.Path + "\"\n\nfunc main(cur realm) {\n\tprintln(" + name + ".Add(cross(cur), 2))\n}\n"}}})
+		}
+	}
+	ctx.ClassIf(len(probed) > 0, "follow-up-probes-package-of-failed-T")
+	follow = append(follow, c.F...)
 	ra, err := a.env.Block(follow)
 	if err != nil {
 		return err
